@@ -410,8 +410,32 @@ func (comp) Gen(r *kit.Rng, maxLen int, tier string) kit.Case {
 		n := near(k)
 		cands = append(cands, n[r.Intn(len(n))])
 	}
-	n := 8 + r.Intn(maxLen+1)
+	aolk := r.Chance(60)
 	var ops []string
+	if r.Chance(25) {
+		// boundary configuration: the empty string as a member of ReceiveKeyIDs and/or ReceiveKeys with
+		// AcceptOnlyListedKeys on, probed on every endpoint with the keys that have no key ID (blank,
+		// classic) and one that has
+		switch r.Intn(3) {
+		case 0:
+			rkid = append(rkid, "")
+		case 1:
+			rk = append(rk, "")
+		default:
+			rkid = append(rkid, "")
+			rk = append(rk, "")
+		}
+		if len(rkid) > 0 && rkid[0] == "" {
+			rkid = append([]string{ks.idListed}, rkid...)
+		}
+		aolk = true
+		for _, ep := range endpoints {
+			for _, k := range []string{"", ks.uc, ks.ic, ks.ue, ks.ie} {
+				ops = append(ops, fmt.Sprintf("req ep=%s hdr=long key=%s", ep, kit.Enc(k)))
+			}
+		}
+	}
+	n := 8 + r.Intn(maxLen+1)
 	for i := 0; i < n; i++ {
 		hdr := "long"
 		switch r.Pick(80, 12, 8) {
@@ -426,7 +450,7 @@ func (comp) Gen(r *kit.Rng, maxLen int, tier string) kit.Case {
 		}
 		ops = append(ops, fmt.Sprintf("req ep=%s hdr=%s key=%s", endpoints[r.Intn(len(endpoints))], hdr, kit.Enc(k)))
 	}
-	return kit.Case{Header: header(mode, r.Chance(60), sk, rk, rkid, auth, 0), Ops: ops}
+	return kit.Case{Header: header(mode, aolk, sk, rk, rkid, auth, 0), Ops: ops}
 }
 
 // ---------------------------------------------------------------------------------------------
